@@ -262,7 +262,7 @@ func fakeAssemblerMain(args []string) {
 
 // suiteViaCommand: the same suite through the real commands.VerifyAllCommand with a configuration file whose
 // assembler binary is this program (see fakeAssemblerMain)
-func suiteViaCommand(sub string, verbose bool) string {
+func suiteViaCommand(sub string, verbose bool, prexec, trap bool) string {
 	self, err := os.Executable()
 	if err != nil {
 		panic(err)
@@ -285,6 +285,12 @@ func suiteViaCommand(sub string, verbose bool) string {
 	args := []string{"-c", cfgFile}
 	if verbose {
 		args = append(args, "-verbose")
+	}
+	if trap {
+		args = append(args, "-trapaddr", "32512")
+	}
+	if prexec {
+		args = append(args, "-prexec", "setup.a")
 	}
 	var cerr error
 	outb, panicked := captureStdout(func() { cerr = commands.VerifyAllCommand(args) })
@@ -318,12 +324,33 @@ func suiteCase(r *rng.R, dir string) string {
 	writeFile(sub, "noasm.a", []byte("; driver\n;fail\n"))
 	writeFile(sub, "pass.lua", []byte("function arrange() end\nfunction assert() return true end\n"))
 	writeFile(sub, "fail.lua", []byte("function arrange() end\nfunction assert() return false, 'no' end\n"))
+	// command path only: a setup program (-prexec) that leaves $AB at $0200, a trap address (-trapaddr), and cases whose
+	// verdict depends on them: one that needs the setup image, one that needs its trap function to be called, one that
+	// passes but overwrites the setup image (the next case must not see that)
+	prexec, trap := viaCmd && r.Chance(40), viaCmd && r.Chance(40)
+	writeFile(sub, "setup.a", []byte("; setup\n;hex 0009a9ab8d000200\n"))
+	writeFile(sub, "trapdrv.a", []byte("; driver\n;hex 0008a9428d007f00\n"))
+	writeFile(sub, "needsetup.lua", []byte("function arrange() end\nfunction assert() return read_byte(0x0200) == 0xAB end\n"))
+	writeFile(sub, "needtrap.lua", []byte("t = 0\nfunction trap(c) t = c end\nfunction arrange() end\nfunction assert() return t == 0x42 end\n"))
+	writeFile(sub, "dirty.lua", []byte("function arrange() write_byte(0x0200, 0) end\nfunction assert() return true end\n"))
 	repo, _ := verifier.NewCaseRepo(sub, "")
 	for i := 0; i < n; i++ {
 		k := r.Intn(10)
 		v := "1"
 		tc := &verifier.TestCase{Name: fmt.Sprintf("c%d", i), TestDriverSource: "ok.a", TestScript: "pass.lua"}
 		switch {
+		case k == 3 && viaCmd:
+			tc.TestScript = "needsetup.lua"
+			if !prexec {
+				v = "0"
+			}
+		case k == 4 && viaCmd:
+			tc.TestDriverSource, tc.TestScript = "trapdrv.a", "needtrap.lua"
+			if !trap {
+				v = "0"
+			}
+		case k == 5 && viaCmd:
+			tc.TestScript = "dirty.lua"
 		case k == 0:
 			tc.TestScript = "fail.lua"
 			v = "0"
@@ -345,7 +372,13 @@ func suiteCase(r *rng.R, dir string) string {
 	}
 	res := ""
 	if viaCmd {
-		res = suiteViaCommand(sub, r.Bool())
+		res = suiteViaCommand(sub, r.Bool(), prexec, trap)
+		if prexec {
+			count("suite.prexec")
+		}
+		if trap {
+			count("suite.trapaddr")
+		}
 		count("suite.verifyallcommand")
 	} else {
 		cfg := emuconfig.DefaultConfig()
